@@ -33,8 +33,7 @@ NA = {
  "C36": "cppcheck-htmlreport over XML files; pure single-threaded Python",
 }
 
-PENDING = {k: "claimed in DESIGN.md (simulation target) but its check is not registered yet: engine under construction in this round"
-           for k in ("C29", "C34")}
+PENDING = {}
 
 TRUST = ("trusted: Linux pipe/fork/waitpid semantics as modelled in sim/rt/vsim.cpp (4096-byte atomic writes, 64KiB capacity, EOF on "
          "last close), libstdc++ filebuf behaviour, the Python XML parser and the canonicalisation of findings; the reference of every "
@@ -42,6 +41,12 @@ TRUST = ("trusted: Linux pipe/fork/waitpid semantics as modelled in sim/rt/vsim.
          "the search samples - a clean batch is evidence, not proof")
 
 CHECKS = {
+ "C29": ("envsim", "exploration", "6.11",
+         "the same project and options run under 3-4 environment seeds (seeded arena allocator changing heap address order, shuffled readdir and DT_UNKNOWN, simulated clock, environment variables): byte-identical text/XML output and exit status, dump files identical up to id renaming, equal finding multisets for -jN",
+         "deterministic simulation: seeded environment perturbation (heap layout, directory order, clock, environment), output-equality oracle"),
+ "C34": ("addonsim", "exploration", "6.12",
+         "stub addon executables playing seeded scripts (well-formed findings, summaries, metrics, malformed JSON, wrong types, failing exit codes, signals, partial lines) per unit and in the whole-program phase, under all executors, with and without build dir, AddressSanitizer build; reference model of the relaying rules",
+         "deterministic simulation with fault injection: scripted faulty second party (addon process), reference model + crash/sanitizer oracle"),
  "C16": ("execsim+tsan", "exploration", "6.2",
          "ThreadSanitizer build of the real CLI under the seeded thread scheduler (handoff invisible to TSan); option sets touching every shared object of the thread executor; any race report is a violation",
          "deterministic simulation: seeded thread schedules with ThreadSanitizer as the invariant checker"),
